@@ -479,7 +479,8 @@ def gen_C07(r, tier):
         memf = r.pick(["6", "1", "0.000001", "0.0000001", "0.00000005", "0.00000001"])
         cases.append("ctr %d %d %s %d %s %s" % (k, pick_threads(r), memf, r.below(2), cont, hxlist(recs)))
     for L in ([70000] if tier == "quick" else [65536, 70000, 200000]):
-        cases.append("ctr %d %d 6 0 fa %s" % (r.pick([3, 11]), r.pick([1, 4, 16]), hxlist([long_record(r, L, amb=2), b"ACGTACGTACGTAA"])))
+        # small k: the table model (nodup / count_occ over the whole k-mer list) is quadratic in the number of distinct k-mers
+        cases.append("ctr %d %d 6 0 fa %s" % (r.pick([2, 3]), r.pick([1, 4, 16]), hxlist([long_record(r, L, amb=2), b"ACGTACGTACGTAA"])))
     # controlled schedules through the hooks: CHECK / TAKE / INC / ADD / EXIT traces and the content of every chunk pass
     def csched_case(W, recs, k, limit, prefix):
         kmers = sum(max(0, len(x) - k + 1) for x in recs)
